@@ -1804,7 +1804,9 @@ var oddities = func() []struct {
 
 // oddFiles: small documents for the whole-file reference oddities, placed next to the referring document.
 func oddFiles(dir string) []simrt.Node {
-	mk := func(n, body string) simrt.Node { return simrt.Node{Path: filepath.Join(dir, n), Kind: "f", Data: []byte(body)} }
+	mk := func(n, body string) simrt.Node {
+		return simrt.Node{Path: filepath.Join(dir, n), Kind: "f", Data: []byte(body)}
+	}
 	return []simrt.Node{
 		mk("oddrootless.json", `{"$defs": {"OnlyDef": {"type": "string"}}}`),
 		mk("oddempty.json", `{}`),
